@@ -177,8 +177,8 @@ def _build(ir, r, ctor=True):
     if k == 'Not':
         inner = B(ir[1])
         style = ir[2] if len(ir) > 2 else 'ctor'
-        if style == 'op' and _is_mish(inner):
-            return ~inner
+        if style == 'op' and _is_mish(inner) and hasattr(type(inner), '__invert__'):
+            return ~inner            # a bare M(T-expr) has no ~ of its own: it is negated through the constructor
         return glom.Not(inner)
     if k == 'M':
         return glom.M
@@ -201,14 +201,20 @@ def _build(ir, r, ctor=True):
     if k == 'Check':
         _, sub, types, vals, validators, inst_of, default = ir
         kw = {}
+        # a single condition is spelled as the bare value (type=int, equal_to=7, validate=f, instance_of=int) for half of the
+        # cases and as a one-element collection for the other half (decided by the case itself, so a replay is stable)
+        bare = len(repr(ir)) % 2 == 0
         if types:
-            kw['type'] = tuple(ty_of(t) for t in types)
+            kw['type'] = ty_of(types[0]) if bare and len(types) == 1 else tuple(ty_of(t) for t in types)
         if vals:
-            kw['one_of'] = tuple(r.build(v) for v in vals)
+            if bare and len(vals) == 1:
+                kw['equal_to'] = r.build(vals[0])
+            else:
+                kw['one_of'] = tuple(r.build(v) for v in vals)
         if validators:
-            kw['validate'] = [fn_of(f) for f in validators]
+            kw['validate'] = fn_of(validators[0]) if bare and len(validators) == 1 else [fn_of(f) for f in validators]
         if inst_of:
-            kw['instance_of'] = tuple(ty_of(t) for t in inst_of)
+            kw['instance_of'] = ty_of(inst_of[0]) if bare and len(inst_of) == 1 else tuple(ty_of(t) for t in inst_of)
         if default is not None:
             kw['default'] = B(default)
         return glom.Check(B(sub), **kw) if sub is not None else glom.Check(**kw)
